@@ -73,20 +73,27 @@ Inductive esc := EscNone | EscChar (c : N) (consumed : nat) | EscBad (digits : t
 Definition decode (hs : text) (consumed : nat) : esc :=
   let v := hexnum 0 hs in if is_scalar v then EscChar v consumed else EscBad hs.
 
+(* the four-digit alternative, tried on what follows `\u` *)
+Definition four_digits (r : text) : esc :=
+  let (hs, _) := take_hex 4 r in if Nat.eqb (List.length hs) 4 then decode hs 5 else EscNone.
+
 Definition try_escape (t : text) : esc :=
   match t with
-  | 117 :: r =>
-      match r with
-      | 123 :: r1 =>
-          let (hs, r2) := take_hex 6 r1 in
-          match hs, r2 with
-          | _ :: _, 125 :: _ => decode hs (3 + List.length hs)
-          | _, _ => EscNone               (* the second alternative cannot match either: `{` is no hex digit *)
-          end
-      | _ => let (hs, _) := take_hex 4 r in
-             if Nat.eqb (List.length hs) 4 then decode hs 5 else EscNone
-      end
-  | _ => EscNone
+  | u :: r =>
+      if u =? LOWER_U then
+        match r with
+        | b :: r1 =>
+            if b =? LBRACE then
+              let (hs, r2) := take_hex 6 r1 in
+              match hs, r2 with
+              | _ :: _, c :: _ => if c =? RBRACE then decode hs (3 + List.length hs) else EscNone
+              | _, _ => EscNone         (* the second alternative cannot match either: `{` is no hex digit *)
+              end
+            else four_digits r
+        | [] => EscNone
+        end
+      else EscNone
+  | [] => EscNone
   end.
 
 (* unescape_slow: left to right, non-overlapping matches; the first escape naming no scalar is the error.
@@ -122,11 +129,14 @@ Fixpoint digits_val (acc : Z) (s : text) : option Z :=
 Definition int_of_text (signed : bool) (s : text) : option Z :=
   match s with
   | [] => None
-  | 43 :: [] => None
-  | 45 :: [] => None
-  | 43 :: t => digits_val 0 t
-  | 45 :: t => if signed then option_map Z.opp (digits_val 0 t) else None
-  | _ => digits_val 0 s
+  | c :: t =>
+      if (c =? 43) || (c =? 45) then
+        match t with
+        | [] => None
+        | _ => if c =? 43 then digits_val 0 t
+               else if signed then option_map Z.opp (digits_val 0 t) else None
+        end
+      else digits_val 0 s
   end.
 Definition parse_i16 (s : text) : res Z :=
   match int_of_text true s with
@@ -147,10 +157,10 @@ Definition parse_wordid_raw (s : text) : res N :=
 (* parse_wordid: `U...` = word of the user dictionary being compiled: WordId::new(1, word) *)
 Definition parse_wordid (s : text) : res N :=
   match s with
-  | 85 :: t => do v <- parse_wordid_raw t; ROk (DIC + v)
-  | _ => parse_wordid_raw s
+  | c :: t => if c =? UPPER_U then do v <- parse_wordid_raw t; ROk (DIC + v) else parse_wordid_raw s
+  | [] => parse_wordid_raw s
   end.
-Definition is_star (s : text) : bool := match s with [42] => true | _ => false end.
+Definition is_star (s : text) : bool := match s with [c] => c =? STAR | _ => false end.
 Definition parse_dic_form (s : text) : res N := if is_star s then ROk 4294967295 else parse_wordid s.
 
 (* ------------------------------------------------------------------ lists *)
@@ -283,8 +293,8 @@ Definition nonempty_digits (s : text) : bool := match s with [] => false | _ => 
    no valid u32 for parse_wordid, and as an inline reference it has no comma: an error in either reading *)
 Definition is_wid_literal (s : text) : bool :=
   match s with
-  | 85 :: t => nonempty_digits t
-  | _ => nonempty_digits s
+  | c :: t => if c =? UPPER_U then nonempty_digits t else nonempty_digits s
+  | [] => false
   end.
 
 (* parse_split: a word id, or `surface,pos1,..,pos6,reading` *)
